@@ -315,3 +315,8 @@ RULES = [
     Rule("C12.M6", rule_M6, floor=2, doc="accessible-cell bound"),
     Rule("C12.M7", rule_M7, floor=3, doc="DFS-stage metadata stays true under percolation (union of edges, forwarded arguments)"),
 ]
+
+from sa import dims as _dims  # noqa: E402
+
+RULES.append(Rule("C12.AX", _dims.make_rule("C12", "C12.AX"), floor=1,
+                  doc="axis-extent agreement: coordinate components are bounded by the extent of their own axis (E13)"))
